@@ -338,6 +338,50 @@ Example C03_regex_inverts_printer_fk_names_except_nonvacuous :
   map pf_symbol (fill_const_name w_tab_full_text [mkPfk (B "0") [B "a"] (B "p") [B "id"]]) = [B "fk1"].
 Proof. exact (conj w_fk_decomposition w_fk_result). Qed.
 
+(** 3e'. fillConstName, the inline form (reFKC; round 5b).  Users write  `col` type ... CONSTRAINT `sym` REFERENCES `rt` (`r`)
+    inside a column definition; the planner never does.  Full statement wanted: for every CREATE TABLE text SQLite
+    accepts, every named inline key is inspected with its name.  Proved: for every statement of the shape
+      pre ++ [( or ,] ++ spaces ++ `col` ++ mid ++ " CONSTRAINT `sym` REFERENCES `rt` (`r1`, ...)" ++ rest
+    with [mid] (type, NOT NULL, DEFAULT ...) free of commas, back-quoted \w+ names, and the decidable side conditions
+    (a) reFKC starts nowhere in [pre] (leftmost match), (b) no later CONSTRAINT..REFERENCES tail in the same comma-free
+    stretch ([no_later_tail]: the class [^,]* is greedy, the LAST tail wins), (c) reFKC finds nothing in [rest] and reFKT
+    nothing in the statement: the key of the PRAGMA list with that column, table and referenced columns gets the symbol,
+    when only one key has that shape.  Missing: other quotings (double quotes, none: tied, 9.4 k texts), several inline
+    keys in one statement (iterate [find_all_fkc_printed]).  (b) is necessary: ExportFkcProofs.wi_two_result. *)
+From Atlas Require Import Sqlite.ExportFkcProofs.
+Theorem C03_regex_inverts_inline_fk_except :
+  forall pre c w col mid sym rt rcols rest fks,
+  open_ch c = true -> forallb ExportModel.is_space w = true -> name_ok col -> mid_ok mid ->
+  name_ok sym -> name_ok rt -> rcols <> [] -> Forall name_ok rcols ->
+  no_later_tail (inline_tail sym rt rcols ++ rest) = true ->
+  no_start_before _ match_fkc_at (pre ++ inline_fk_text c w col mid sym rt rcols ++ rest) (List.length pre) = true ->
+  find_all_fkc (S (List.length rest)) rest = [] ->
+  (let T := pre ++ inline_fk_text c w col mid sym rt rcols ++ rest in find_all_fkt (S (List.length T)) T = []) ->
+  one_match (m_fk (mkNfk sym [col] rt rcols)) fks ->
+  fill_const_name (pre ++ inline_fk_text c w col mid sym rt rcols ++ rest) fks = map (upd (mkNfk sym [col] rt rcols)) fks.
+Proof. exact fill_const_name_inline. Qed.
+Print Assumptions C03_regex_inverts_inline_fk_except.
+
+Example C03_regex_inverts_inline_fk_except_nonvacuous :
+  wi_text = B "CREATE TABLE `c` (`id` integer NOT NULL PRIMARY KEY, `pid` int NOT NULL CONSTRAINT `fk_p` REFERENCES `p` (`id`) ON DELETE CASCADE, `n` text NULL)"
+  /\ no_later_tail (inline_tail (B "fk_p") (B "p") [B "id"] ++ wi_rest) = true
+  /\ map pf_symbol (fill_const_name wi_text [mkPfk (B "0") [B "pid"] (B "p") [B "id"]]) = [B "fk_p"].
+Proof. exact (conj wi_is (conj (proj1 wi_premises) wi_result)). Qed.
+
+(** reFKC at one inline key, for every text around it: the match and its captures *)
+Theorem C03_reFKC_match_exact :
+  forall c w col mid sym rt rcols rest,
+  open_ch c = true -> forallb ExportModel.is_space w = true -> name_ok col -> mid_ok mid ->
+  name_ok sym -> name_ok rt -> rcols <> [] -> Forall name_ok rcols ->
+  no_later_tail (inline_tail sym rt rcols ++ rest) = true ->
+  match_fkc_at (inline_fk_text c w col mid sym rt rcols ++ rest) = Some (col, sym, rt, idents_text rcols, rest).
+Proof. exact match_fkc_printed. Qed.
+Print Assumptions C03_reFKC_match_exact.
+Example C03_reFKC_match_exact_nonvacuous :
+  match_fkc_at (B ", `pid` int CONSTRAINT `fk_p` REFERENCES `p` (`id`) ON DELETE CASCADE)")
+  = Some (B "pid", B "fk_p", B "p", B "`id`", B " ON DELETE CASCADE)").
+Proof. vm_compute. reflexivity. Qed.
+
 (** 3f. further findings as kernel-evaluated witnesses on the models (each reproduced on the real code, see
     known_findings.d/C03.json): a bare identifier ending in "check" before "(", a CHECK inside an SQL comment,
     a two-parameter type on a generated column, a column name with a space on AUTOINCREMENT, a comma before an
@@ -362,6 +406,77 @@ Print Assumptions C03_regex_inverts_printer_refuted_more.
     columns, no further "AS (" follows in the same comma-free stretch), the inspector recovers exactly
     sqlx.MayWrap(expr) / the column.  Both premises are decidable on the printed text; 3b / 3c show that
     neither can be dropped. *)
+(** 5c. The SQL export path of the CLI as a whole (round 5b; Sqlite/ExportRealm.v).
+    cmdlog.sqlInspect = fmtPlan(ChangesToRealm(client, realm)).  Full statement wanted: for every realm the exported
+    script, executed on an empty database, creates every object before it is used and exactly the objects of the realm.
+    [C03_sql_script_objects]: for EVERY realm (any number of schemas; tables are carried by the change, not looked up by
+    name) the object sequence of the planned script is: per schema in order, per table in order, CREATE TABLE then one
+    CREATE INDEX per index under its normalised name -- nothing else (no PRAGMA bracket, no stub of a referenced table);
+    a client that is not bound to a schema gets AddSchema first, which the SQLite planner refuses (every SQLite URL is
+    bound to "main", so that branch is only reachable in process).
+    [C03_sql_script_creates_before_use_except]: SQLite's catalogue (tables and indexes share one name space; an index
+    needs its table; REFERENCES needs nothing) accepts every statement of the script of every realm whose script names
+    each object once, whatever the foreign keys are (cycles, self references, dangling parents), and ends with exactly
+    the realm's tables in order.
+    [C03_sql_script_name_clash_refuted]: the premise is NOT implied by a legal catalogue: normalizeIdxName renames the
+    index of a UNIQUE constraint (sqlite_autoindex_t_1) to t_a, which another index may already be called; the script
+    then creates t_a twice (reproduced: finding C03-unique-index-name-clash).
+    [C03_sql_script_fk_order_refuted]: "parents before children" (C04's strict catalogue) is false of the export: it keeps
+    the inspection order; SQLite accepts it because parents are resolved when rows are written (tied: the scripts are
+    executed on a real engine in stages loop and cli, cyclic / self-referencing / child-first corpus included).
+    [C03_sql_script_fk_closure]: a parent that is a table of the realm is created by the script. *)
+From Atlas Require Import Sqlite.ExportRealm Sqlite.ExportRealmProofs.
+Theorem C03_sql_script_objects :
+  forall (bound : bool) (r : realm), option_map objects (sqlInspect bound r) = script_spec bound r.
+Proof. exact sqlInspect_spec. Qed.
+Print Assumptions C03_sql_script_objects.
+Example C03_sql_script_objects_nonvacuous :
+  option_map objects (sqlInspect true w_cycle)
+  = Some [OTable n_a [n_b]; OIndex [105;49]%N n_a; OTable n_b [n_a]; OTable n_t [n_t]]
+  /\ sqlInspect false w_cycle = None.
+Proof. exact (conj (proj1 w_cycle_lazy) (proj1 w_unbound)). Qed.
+
+Theorem C03_sql_script_creates_before_use_except :
+  forall (bound : bool) (r : realm) (os : list obj),
+  script_spec bound r = Some os -> NoDup (obj_names os) ->
+  exists c', replay false empty_cat os = Some c' /\ c_tables c' = map x_name (all_tables r).
+Proof. exact dump_replays. Qed.
+Print Assumptions C03_sql_script_creates_before_use_except.
+Example C03_sql_script_creates_before_use_except_nonvacuous :
+  exists os, script_spec true w_cycle = Some os /\ NoDup (obj_names os) /\ List.length os = 4%nat.
+Proof.
+  eexists. split; [vm_compute; reflexivity|]. split; [|reflexivity].
+  repeat constructor; cbn; intro H; repeat (destruct H as [H|H]; [discriminate|]); exact H.
+Qed.
+
+Theorem C03_sql_script_name_clash_refuted :
+  exists (r : realm) (os : list obj),
+    script_spec true r = Some os
+    /\ NoDup (map x_name (all_tables r) ++ flat_map (fun x => map i_name (t_idx (x_t x))) (all_tables r))
+    /\ replay false empty_cat os = None.
+Proof.
+  exists w_clash, [OTable n_t []; OIndex n_t_a n_t; OIndex n_t_a n_t].
+  destruct w_clash_fails as (H1 & H2 & H3). split; [exact H1|]. split; [exact H2|exact H3].
+Qed.
+Print Assumptions C03_sql_script_name_clash_refuted.
+
+Theorem C03_sql_script_fk_order_refuted :
+  exists (r : realm) (os : list obj),
+    option_map objects (sqlInspect true r) = Some os
+    /\ (exists c, replay false empty_cat os = Some c) /\ replay true empty_cat os = None.
+Proof. exists w_cycle. eexists. exact w_cycle_lazy. Qed.
+Print Assumptions C03_sql_script_fk_order_refuted.
+
+Theorem C03_sql_script_fk_closure :
+  forall (bound : bool) (r : realm) (os : list obj) (x : xtable) (p : str),
+  script_spec bound r = Some os -> In x (all_tables r) -> In p (map f_reftable (t_fks (x_t x))) ->
+  In p (map x_name (all_tables r)) -> In p (tnames os).
+Proof. exact dump_fk_closure. Qed.
+Print Assumptions C03_sql_script_fk_closure.
+Example C03_sql_script_fk_closure_nonvacuous :
+  exists os, script_spec true w_cycle = Some os /\ In n_b (tnames os).
+Proof. eexists. split; [vm_compute; reflexivity|]. vm_compute. right. left. reflexivity. Qed.
+
 From Atlas Require Import Diff.Schema Sqlite.ExportColumnProofs.
 Theorem C03_regex_inverts_printer_genexpr_table_except :
   forall x cols1 c cols2 e ty txt,
